@@ -366,6 +366,26 @@ def gen_spec(R, *, n_lf=None, hc=False, small=False, kinds=None, vrl=None, rows=
                 # keep the cross-attribute consistency rules out of the valid stream: no dimension/axis/zones together
                 skip = {'dimension', 'axis', 'zones', 'maximum_deviation', 'standard_deviation', 'standard',
                         'plus_tolerance', 'minus_tolerance', 'references', 'plus_tolerances', 'minus_tolerances'}
+                zones_avail = [Ref(li, i) for i, x in enumerate(objs) if x['kind'] == 'zone']
+                axes_avail = [(Ref(li, i), x) for i, x in enumerate(objs) if x['kind'] == 'axis']
+                if kind in ('parameter', 'computation') and zones_avail and R.random() < 0.45:
+                    # a consistent combination: one value (scalar or of shape [d]) per zone, the dimension left to be
+                    # derived or stated, an axis whose coordinates (if it has any) number d
+                    nz = R.choice([1, 1, 2, 3])
+                    zs = [R.choice(zones_avail) for _ in range(nz)]
+                    d = R.choice([None, None, 2, 3])
+                    one = (lambda: R.choice([1.5, -2.0, 7.25, 0.0])) if R.random() < 0.7 else (lambda: R.randrange(-50, 50))
+                    vals = [one() if d is None else [one() for _ in range(d)] for _ in range(nz)]
+                    o['attrs']['values'] = {'v': vals, 'units': R.choice([None, 'm']), 'route': R.choice(['plain', 'dict', 'later'])}
+                    o['attrs']['zones'] = {'v': zs, 'units': None, 'route': 'plain'}
+                    if R.random() < 0.4:
+                        o['attrs']['dimension'] = {'v': [d or 1], 'units': None, 'route': R.choice(['plain', 'later'])}
+                    fits = [r for r, x in axes_avail if 'coordinates' not in x['attrs']
+                            or len(eflr.flatten(x['attrs']['coordinates']['v'] if isinstance(x['attrs']['coordinates']['v'], (list, tuple))
+                                                else [x['attrs']['coordinates']['v']])) == (d or 1)]
+                    if fits and R.random() < 0.5:
+                        o['attrs']['axis'] = {'v': [R.choice(fits)], 'units': None, 'route': 'plain'}
+                    skip = skip | {'values'}
             if kind == 'splice':
                 skip = {'zones'}
             if kind == 'zone':
